@@ -126,7 +126,7 @@ func TestVFC05QueryLogPrograms(t *testing.T) {
 
 		var control sync.Mutex
 		var wg sync.WaitGroup
-		var adds atomic.Int64
+		var adds, progress atomic.Int64
 		start := make(chan struct{})
 		for _, ws := range p.Writers {
 			wg.Add(1)
@@ -146,6 +146,7 @@ func TestVFC05QueryLogPrograms(t *testing.T) {
 						})
 						adds.Add(1)
 					}()
+					progress.Add(1)
 					if i%3 == 0 {
 						runtime.Gosched()
 					}
@@ -208,6 +209,7 @@ func TestVFC05QueryLogPrograms(t *testing.T) {
 				<-start
 				for _, op := range ops {
 					doOp(op, true)
+					progress.Add(1)
 				}
 			}(ops)
 		}
@@ -218,6 +220,7 @@ func TestVFC05QueryLogPrograms(t *testing.T) {
 				<-start
 				for _, op := range ops {
 					doOp(op, false)
+					progress.Add(1)
 					runtime.Gosched()
 				}
 			}(ops)
@@ -225,12 +228,10 @@ func TestVFC05QueryLogPrograms(t *testing.T) {
 		done := make(chan struct{})
 		go func() { wg.Wait(); close(done) }()
 		close(start)
-		select {
-		case <-done:
-		case <-time.After(60 * time.Second):
+		if !vfkit.WaitProgress(done, &progress, 60*time.Second) {
 			buf := make([]byte, 1<<20)
 			n := runtime.Stack(buf, true)
-			t.Fatalf("stall: the query-log program did not finish within 60s\n%s", buf[:n])
+			t.Fatalf("stall: the query-log program completed no operation for 60s\n%s", buf[:n])
 		}
 		// let an asynchronous flush started by the last Add finish
 		_ = l.Shutdown(ctx)
